@@ -47,7 +47,7 @@ Qed.
 Definition blank (w : ascii) : Prop := w = " "%char \/ w = "009"%char \/ w = "010"%char.
 
 Lemma blank_not_ident w : blank w -> is_ident_char w = false.
-Proof. intros [->|[->|->]]; reflexivity. Qed.
+Proof. intros [ -> | [ -> | -> ] ]; reflexivity. Qed.
 
 (* index_of inside the first part *)
 Lemma index_of_app c a b n : index_of c (a ++ b) = Some n -> n < slen a -> forall x, index_of c (a ++ x) = Some n.
@@ -60,9 +60,12 @@ Qed.
 
 Lemma substring_app m a x : m <= slen a -> substring 0 m (a ++ x) = substring 0 m a.
 Proof.
-  revert a. induction m as [|m IH]; intros a L; [destruct a; reflexivity|].
+  revert a. induction m as [|m IH]; intros a L; [destruct a, x; reflexivity|].
   destruct a as [|c a]; [cbn in L; lia|]. cbn [append substring]. rewrite slen_cons in L. rewrite IH by lia. reflexivity.
 Qed.
+
+Lemma starts1 c d x y : starts_with (String c "") (String d x) = starts_with (String c "") (String d y).
+Proof. unfold starts_with. cbn [String.prefix]. destruct (ascii_dec c d); [destruct x, y|]; reflexivity. Qed.
 
 Definition solid (t : tok) : bool :=
   match t with TId _ | TKeyword _ | TReserved _ | TSym _ | TString _ => true | _ => false end.
@@ -124,6 +127,16 @@ Proof.
   destruct s as [|z [|c r]]; try apply G. destruct (Ascii.eqb z "0" && is_octal c); apply G.
 Qed.
 
+Lemma lex_symbol_sym c r t n : lex_symbol c r = Some (t, n) -> exists v, t = TSym v.
+Proof.
+  unfold Lexer.lex_symbol. destruct (find _ symbols) as [[[[bb t1] teq] tdbl]|]; [|discriminate].
+  intros H.
+  repeat match type of H with
+         | context [match ?x with _ => _ end] => destruct x
+         | context [if ?x then _ else _] => destruct x
+         end; inversion H; eexists; reflexivity.
+Qed.
+
 Lemma lex_symbol_local c a' b v w b' :
   lex_symbol c (a' ++ b) = Some (TSym v, S (slen a')) ->
   Ascii.eqb w "=" = false -> Ascii.eqb w c = false ->
@@ -146,7 +159,7 @@ Theorem solid_token_ignores_following_blank a b t w b' :
   tok_at false (a ++ b) = LOk t (slen a) -> solid t = true -> blank w ->
   tok_at false (a ++ String w b') = LOk t (slen a).
 Proof.
-  intros H S Bw. destruct a as [|c a'].
+  intros H St Bw. destruct a as [|c a'].
   { (* a token is never empty *)
     destruct b as [|c r]; [cbn in H; discriminate|].
     assert (Bd := tok_at_bounded keywords reserved_words symbols int_suffixes float_suffixes float_is_zero utf8_ok false (String c r) ltac:(discriminate)).
@@ -154,8 +167,8 @@ Proof.
   cbn [append] in *. cbn [Lexer.tok_at] in *.
   destruct (is_digit c) eqn:Hd.
   { exfalso. destruct (lex_float (String c (a' ++ b))) as [t0 n0|e k] eqn:F.
-    - inversion H; subst. rewrite (lex_float_not_solid _ _ _ F) in S. discriminate.
-    - destruct e; try discriminate. rewrite (lex_int_not_solid _ _ _ H) in S. discriminate. }
+    - inversion H; subst. rewrite (lex_float_not_solid _ _ _ F) in St. discriminate.
+    - destruct e; try discriminate. rewrite (lex_int_not_solid _ _ _ H) in St. discriminate. }
   destruct (is_alpha_ c) eqn:Ha.
   { (* a word: the span of identifier characters is exactly a, and stops at the blank *)
     unfold Lexer.lex_word in *.
@@ -184,17 +197,17 @@ Proof.
   destruct (Ascii.eqb c "/" && starts_with "*" (a' ++ b)) eqn:C2.
   { exfalso. destruct (block_end (drop 1 (a' ++ b))); inversion H; subst; discriminate. }
   assert (Wc : Ascii.eqb w c = false).
-  { apply orb_false_iff in W1 as [X1 X2]. destruct Bw as [->|[->|->]].
+  { apply orb_false_iff in W1 as [X1 X2]. destruct Bw as [ -> | [ -> | -> ] ].
     - rewrite Ascii.eqb_sym. exact X1.
     - rewrite Ascii.eqb_sym. exact X2.
     - rewrite Ascii.eqb_sym. exact W2. }
-  assert (We : Ascii.eqb w "=" = false) by (destruct Bw as [->|[->|->]]; reflexivity).
+  assert (We : Ascii.eqb w "=" = false) by (destruct Bw as [ -> | [ -> | -> ] ]; reflexivity).
   assert (C1' : Ascii.eqb c "/" && starts_with "/" (a' ++ String w b') = false).
-  { destruct (Ascii.eqb c "/"); [|reflexivity]. cbn [andb] in *. destruct a' as [|d a'']; [|exact C1].
-    cbn [append]. destruct Bw as [->|[->|->]]; reflexivity. }
+  { destruct (Ascii.eqb c "/"); [|reflexivity]. cbn [andb] in *. destruct a' as [|d a'']; [|cbn [append] in *; rewrite (starts1 _ d _ (a'' ++ b)); exact C1].
+    cbn [append]. destruct Bw as [ -> | [ -> | -> ] ]; reflexivity. }
   assert (C2' : Ascii.eqb c "/" && starts_with "*" (a' ++ String w b') = false).
-  { destruct (Ascii.eqb c "/"); [|reflexivity]. cbn [andb] in *. destruct a' as [|d a'']; [|exact C2].
-    cbn [append]. destruct Bw as [->|[->|->]]; reflexivity. }
+  { destruct (Ascii.eqb c "/"); [|reflexivity]. cbn [andb] in *. destruct a' as [|d a'']; [|cbn [append] in *; rewrite (starts1 _ d _ (a'' ++ b)); exact C2].
+    cbn [append]. destruct Bw as [ -> | [ -> | -> ] ]; reflexivity. }
   rewrite C1', C2'.
   destruct (Ascii.eqb c """") eqn:Q.
   { (* a string: the closing quote is the last character of a *)
@@ -202,7 +215,7 @@ Proof.
     destruct (index_of """" (a' ++ b)) as [pos|] eqn:I; [|discriminate].
     assert (P : pos + 2 = S (slen a')).
     { destruct (negb (utf8_ok (substring 1 pos (String c (a' ++ b))))); [discriminate|].
-      destruct (contains "010" (substring 1 pos (String c (a' ++ b)))); [discriminate|]. inversion H. rewrite slen_cons. reflexivity. }
+      destruct (contains "010" (substring 1 pos (String c (a' ++ b)))); [discriminate|]. inversion H as [[Ht Hl]]. unfold slen in *. cbn [String.length] in *. lia. }
     rewrite (index_of_app """" a' b pos I ltac:(lia) (String w b')).
     cbn [substring] in *. rewrite (substring_app pos a' (String w b')) by lia. rewrite (substring_app pos a' b) in H by lia.
     exact H. }
@@ -210,8 +223,125 @@ Proof.
   destruct (Ascii.eqb c ">"); [inversion H; subst; discriminate|].
   destruct (lex_symbol c (a' ++ b)) as [[t0 n0]|] eqn:Y; [|discriminate].
   inversion H; subst. rewrite slen_cons in *.
-  destruct t0; try discriminate.
-  rewrite (lex_symbol_local c a' b variant w b' Y We Wc). reflexivity.
+  destruct (lex_symbol_sym _ _ _ _ Y) as [v ->].
+  rewrite (lex_symbol_local c a' b v w b' Y We Wc). reflexivity.
 Qed.
 
 End Trivia.
+
+(* ---- the token stream ---- *)
+Section Stream.
+Variable keywords : list (string * string).
+Variable reserved_words : list string.
+Variable symbols : list (N * string * option string * option string).
+Variable int_suffixes : list (list (list N) * string).
+Variable float_suffixes : list (list N * string).
+Variable float_is_zero : string -> bool.
+Variable utf8_ok : string -> bool.
+
+Notation tok_at := (tok_at keywords reserved_words symbols int_suffixes float_suffixes float_is_zero utf8_ok).
+Notation lex_all := (lex_all keywords reserved_words symbols int_suffixes float_suffixes float_is_zero utf8_ok).
+Notation lex_file := (lex_file keywords reserved_words symbols int_suffixes float_suffixes float_is_zero utf8_ok).
+
+Definition is_endline (t : tok) : bool := match t with TEndline => true | _ => false end.
+
+(* TokenStream::read_to_end without the spans *)
+Inductive Lexes : string -> bool -> list tok -> Prop :=
+| LexEnd last : Lexes "" last (if last then [] else [TEndline])
+| LexTok c r last t n ts :
+    tok_at false (String c r) = LOk t n -> Lexes (drop n (String c r)) (is_endline t) ts -> Lexes (String c r) last (t :: ts).
+
+Definition toks (ts : list (tok * nat * nat)) : list tok := map (fun x => fst (fst x)) ts.
+Definition strip (l : list tok) : list tok := filter (fun t => negb (is_ws t)) l.
+
+Lemma lex_all_sound fuel : forall s off last acc ts,
+  lex_all fuel s off last acc = SOk ts -> exists l, toks ts = (toks (rev acc) ++ l)%list /\ Lexes s last l.
+Proof.
+  induction fuel as [|fuel IH]; intros s off last acc ts H; [discriminate|]. cbn [Lexer.lex_all] in H.
+  destruct s as [|c r].
+  - destruct last; inversion H; subst.
+    + exists []. split; [rewrite app_nil_r; reflexivity|apply (LexEnd true)].
+    + exists [TEndline]. split; [cbn [rev]; unfold toks; rewrite map_app; reflexivity|apply (LexEnd false)].
+  - destruct (tok_at false (String c r)) as [t n|e k] eqn:T; [|discriminate].
+    apply IH in H as (l & E & L). exists (t :: l). split.
+    + rewrite E. cbn [rev]. unfold toks. rewrite map_app. cbn [map fst]. rewrite <- app_assoc. reflexivity.
+    + eapply LexTok; [exact T|]. destruct t; exact L.
+Qed.
+
+Lemma lex_all_complete s last l : Lexes s last l -> forall fuel off acc, slen s < fuel ->
+  exists ts, lex_all fuel s off last acc = SOk ts /\ toks ts = (toks (rev acc) ++ l)%list.
+Proof.
+  induction 1 as [last|c r last t n ts T L IH]; intros fuel off acc Hf.
+  - destruct fuel as [|fuel]; [lia|]. cbn [Lexer.lex_all]. destruct last; eexists; split; try reflexivity.
+    + rewrite app_nil_r. reflexivity.
+    + cbn [rev]. unfold toks. rewrite map_app. reflexivity.
+  - destruct fuel as [|fuel]; [lia|]. cbn [Lexer.lex_all]. rewrite T.
+    assert (B := tok_at_bounded keywords reserved_words symbols int_suffixes float_suffixes float_is_zero utf8_ok false (String c r) ltac:(discriminate)).
+    rewrite T in B. cbn [bounded] in B.
+    destruct (IH fuel (off + n) ((t, off, off + n) :: acc)) as (ts' & E & M).
+    { rewrite drop_len. lia. }
+    exists ts'. split.
+    + rewrite <- E. destruct t; reflexivity.
+    + rewrite M. cbn [rev]. unfold toks. rewrite map_app. cbn [map fst]. rewrite <- app_assoc. reflexivity.
+Qed.
+
+(* the flag only decides whether an empty rest gets the synthetic line end *)
+Lemma lexes_flag s l1 ts : Lexes s l1 ts -> forall l2, exists ts', Lexes s l2 ts' /\ strip ts' = strip ts.
+Proof.
+  destruct 1 as [last|c r last t n ts T L]; intros l2.
+  - exists (if l2 then [] else [TEndline]). split; [constructor|]. destruct last, l2; reflexivity.
+  - exists (t :: ts). split; [econstructor; eassumption|reflexivity].
+Qed.
+
+Lemma drop_app a b : drop (slen a) (a ++ b) = b.
+Proof. induction a as [|c a IH]; [reflexivity|]. cbn [append]. rewrite slen_cons. cbn [drop]. exact IH. Qed.
+
+Lemma blank_token w b : blank w -> exists t, tok_at false (String w b) = LOk t 1 /\ is_ws t = true.
+Proof.
+  intros [ -> | [ -> | -> ] ]; cbn [Lexer.tok_at]; cbn; eexists; split; reflexivity.
+Qed.
+
+(* from a token boundary on: a blank after a solid token changes nothing but whitespace *)
+Theorem blank_after_solid_token a b last t ts w :
+  tok_at false (a ++ b) = LOk t (slen a) -> solid t = true -> blank w ->
+  Lexes (a ++ b) last (t :: ts) ->
+  exists ts', Lexes (a ++ String w b) last (t :: ts') /\ strip ts' = strip ts.
+Proof.
+  intros T St Bw L.
+  pose proof (solid_token_ignores_following_blank keywords reserved_words symbols int_suffixes float_suffixes float_is_zero utf8_ok a b t w b T St Bw) as T'.
+  destruct a as [|c a'].
+  { exfalso. change ("" ++ String w b) with (String w b) in T'. destruct (blank_token w b Bw) as (tw & Tw & _).
+    rewrite Tw in T'. inversion T'. }
+  inversion L as [|c0 r0 last0 t0 n0 ts0 T0 L0]; subst.
+  change (String c (a' ++ b)) with (String c a' ++ b) in *. rewrite T in T0. inversion T0; subst n0.
+  change (S (slen a')) with (slen (String c a')) in L0. rewrite drop_app in L0.
+  destruct (blank_token w b Bw) as (tw & Tw & Ww).
+  destruct (lexes_flag b (is_endline t) ts L0 (is_endline tw)) as (ts2 & L2 & S2).
+  exists (tw :: ts2). split.
+  - change (String c (a' ++ String w b)) with (String c a' ++ String w b).
+    apply (LexTok c (a' ++ String w b) last t (slen (String c a')) (tw :: ts2)); [exact T'|].
+    change (String c (a' ++ String w b)) with (String c a' ++ String w b). rewrite drop_app.
+    apply (LexTok w b (is_endline t) tw 1 ts2); [exact Tw|]. cbn [drop]. exact L2.
+  - unfold strip in *. cbn [filter]. rewrite Ww. cbn [negb]. exact S2.
+Qed.
+
+(* for a whole file that starts with the token *)
+Corollary blank_after_first_token a b t w spans :
+  tok_at false (a ++ b) = LOk t (slen a) -> solid t = true -> blank w ->
+  lex_file (a ++ b) = SOk spans ->
+  exists spans', lex_file (a ++ String w b) = SOk spans' /\ strip (toks spans') = strip (toks spans).
+Proof.
+  intros T St Bw H. unfold Lexer.lex_file in *.
+  destruct (lex_all_sound _ _ _ _ _ _ H) as (l & E & L). cbn [rev toks map app] in E.
+  destruct l as [|t0 ts0].
+  { exfalso. inversion L as [last0 Hs Hl Hn|]. rewrite <- Hs in T. cbn in T. discriminate. }
+  assert (t0 = t).
+  { inversion L as [|c0 r0 last0 t1 n0 ts1 T0 L0 Hs]; subst. rewrite Hs in T0. rewrite T in T0. inversion T0. reflexivity. }
+  subst t0.
+  destruct (blank_after_solid_token a b true t ts0 w T St Bw L) as (ts' & L' & S').
+  destruct (lex_all_complete _ _ _ L' (S (slen (a ++ String w b))) 0 [] ltac:(lia)) as (sp & E' & M').
+  exists sp. split; [exact E'|]. cbn [rev toks map app] in M'. rewrite M', E.
+  unfold strip in *. cbn [filter]. destruct (negb (is_ws t)); [f_equal|]; exact S'.
+Qed.
+
+End Stream.
